@@ -40,6 +40,22 @@ function main() -> void { for (int i = 0; i < 3; i = i + 1) { N a = new N(i); N 
 function main() -> void { A a = new A(); echo(a.f(1)); echo(a.f(2L)); echo(a.f(1.5f)); long w = 3; echo(a.f(w)); }""",
 }
 
+# Programs at the edge of what the analyser accepts (array sizes named by finals whose value is only known at run time,
+# sizes that differ from call to call): wherever such a program IS accepted it is in the property's domain and must be
+# shot-isolated; where the analyser rejects it, it is outside the domain and skipped (counted in the evidence).
+FRONTIER = {}
+for _tname, _decl, _show in (("int", "int[n] a;", "echo(a);"), ("float", "float[n] a;", "echo(a);"), ("qubit", "qubit[n] r; x(r[n - 1]);", "echo(measure r[n - 1]); echo(n);")):
+    FRONTIER["size-from-measured-call:" + _tname] = """function width(bit m) -> int { if (m == 1b) { return 2; } return 1; }
+function main() -> void { qubit q; h(q); bit m = measure q; final int n = width(m); %s echo(m); %s }""" % (_decl, _show)
+    FRONTIER["size-from-measured-ternary:" + _tname] = """function main() -> void { qubit q; h(q); bit m = measure q; int k = 1; if (m == 1b) { k = 3; } final int n = k; %s echo(m); %s }""" % (_decl, _show)
+    FRONTIER["size-from-parameter:" + _tname] = """function mk(int k, bit m) -> void { final int n = k; %s %s }
+function main() -> void { qubit q; h(q); bit m = measure q; if (m == 1b) { mk(3, m); } else { mk(1, m); } echo(m); }""" % (_decl, _show)
+    FRONTIER["size-from-static:" + _tname] = """static class S { public static int w = 1; }
+function main() -> void { qubit q; h(q); bit m = measure q; if (m == 1b) { S.w = 2; } final int n = S.w; %s echo(m); %s }""" % (_decl, _show)
+    FRONTIER["size-from-loop:" + _tname] = """function main() -> void { qubit q; h(q); bit m = measure q; for (int i = 1; i < 3; i = i + 1) { final int n = i; %s %s } echo(m); }""" % (_decl, _show)
+    FRONTIER["size-from-final-expr:" + _tname] = """function two() -> int { return 2; }
+function main() -> void { qubit q; h(q); bit m = measure q; final int b = two(); final int n = b + 1; %s echo(m); %s }""" % (_decl, _show)
+
 
 def ndraws(src):
     r = vdrv.run_src(src, gc="own", warn=0)
@@ -54,11 +70,13 @@ _N = 2
 
 
 def _one(name):
-    src = PROGRAMS[name]
+    src = PROGRAMS.get(name) or FRONTIER[name]
     base = vdrv.run_src(src, gc="own", warn=0, want="tracked,qasm")
     if base.crash or base.rec is None:
         return name, [("-", "the program could not be run at all: %s %s" % (base.crash, base["fd2"][:300]))], 1
     if base.rec.get("stage") != "run":
+        if name in FRONTIER:
+            return name, None, 1
         return name, [("-", "the program is not accepted: %s" % base.rec.get("msg"))], 1
     nd = min(len(base.rec["draws"]), 3)
     scripts = list(itertools.product([0, 1], repeat=nd)) if nd else [()]
@@ -90,16 +108,75 @@ def _one(name):
     return name, bad, n
 
 
+def corpus(tier):
+    """accepted programs of the other checks' generators (object model, allocation grammar, tracked placements, declaration pools,
+    edge alphabet): each is a program whose repeated execution on one AST must behave like fresh runs"""
+    from checks import c08, c10, c11, c12, c17
+    out = []
+    for name, src, exp in c08.hierarchy_programs(tier) + c08.overload_programs(tier) + c08.generic_programs() + c08.destructor_programs():
+        if exp[0] == "ok":
+            out.append(("c08:" + name, src))
+    for name in c11.BODIES:
+        out.append(("c11:" + name, c11.program(name)))
+    for prep in ("h", "x", ""):
+        for p in c17.programs(prep):
+            out.append(("c17:%s:%s" % (prep, p.name), p.src))
+    for sub in c10.subsets(4 if tier == "thorough" else 3):
+        out.append(("c10:" + "+".join(sub), c10.program(list(sub) + ["main"], sub)))
+    edge = c12.edge_programs(tier)
+    for name, src in (edge if tier == "thorough" else edge[::7]):
+        out.append(("c12:" + name, src))
+    return out
+
+
+def _corpus_one(item):
+    name, src = item
+    fresh = vdrv.run_src(src, gc="own", warn=0, want="tracked,qasm")
+    if fresh.crash or fresh.rec is None:
+        return name, src, None, 1          # crashes are C12's subject
+    if fresh.rec.get("stage") != "run":
+        return name, src, None, 1          # not accepted: outside this property
+    f = obs(fresh.rec)
+    probs = []
+    for variant, extra in (("plain", {}), ("reanalyse-between", {"reanalyse_between": 1})):
+        r = vdrv.run_job({"id": "s", "kind": "run", "opts": dict({"shots": _N, "gc": "own", "warn": 0, "want": "tracked,qasm"}, **extra), "blobs": {"src": src}})
+        recs = r["records"]
+        if r.crash and len(recs) < _N:
+            probs.append("%s: the interpreter died during shot %d of %d: %s %s" % (variant, len(recs), _N, r.crash, r["fd2"][:300]))
+            continue
+        for i, rec in enumerate(recs):
+            if obs(rec) != f:
+                probs.append("%s: shot %d of a %d-shot run on one AST gives %r, a fresh parse-analyse-run (same default draws) gives %r" % (variant, i, _N, obs(rec)[:4], f[:4]))
+                break
+    return name, src, probs, 1 + 2 * _N
+
+
 def main(tier):
     global _N
     ck = vcheck.Check("C18", "exploration", tier)
     _N = 3 if tier == "thorough" else 2
     total = 0
-    for name, bad, n in vdrv.pmap(_one, list(PROGRAMS), chunksize=1):
+    ncorpus = 0
+    for name, src, probs, n in vdrv.pmap(_corpus_one, corpus(tier), chunksize=8):
         total += n
+        if probs is None:
+            continue
+        ncorpus += 1
+        for p in probs[:1]:
+            fam = name.split(":")[0] + ":" + name.split(":")[1]
+            ck.violation("corpus:%s:%s" % (fam, p.split(":")[0]), "%s\nprogram (%s):\n%s" % (p, name, src), {"tool": "vdrv", "job": {"kind": "run", "opts": {"shots": _N, "gc": "own", "warn": 0, "want": "tracked,qasm"}, "blobs": {"src": src}}})
+    frontier_in, frontier_out = 0, 0
+    for name, bad, n in vdrv.pmap(_one, list(PROGRAMS) + list(FRONTIER), chunksize=1):
+        total += n
+        src = PROGRAMS.get(name) or FRONTIER[name]
+        if name in FRONTIER:
+            if bad is None:
+                frontier_out += 1
+                continue
+            frontier_in += 1
         for combo, p in bad[:3]:
-            ck.violation("shots:%s:%s" % (name, p.split(":")[0]), "%s\nscripts per shot: %s\nprogram (%s):\n%s" % (p, combo, name, PROGRAMS[name]), {"tool": "text", "case": PROGRAMS[name]})
-        ck.sample({"program": name, "source": PROGRAMS[name][:300]}, limit=4)
+            ck.violation("shots:%s:%s" % (name, p.split(":")[0]), "%s\nscripts per shot: %s\nprogram (%s):\n%s" % (p, combo, name, src), {"tool": "text", "case": src})
+        ck.sample({"program": name, "source": src[:300]}, limit=4)
     ck.assumptions += ["the AST may be modified in place as long as no later execution can observe it; observation = status, stdout, tracked counts, QASM"]
-    ck.finish({"evaluations": total, "distinct_nontrivial": len(PROGRAMS), "rule": "each stateful program x every assignment of outcome scripts (<=3 draws) to %d consecutive shots, plus analyse-twice and re-analyse-between variants; distinct = programs" % _N,
-               "programs": len(PROGRAMS), "shots_per_run": _N})
+    ck.finish({"evaluations": total, "distinct_nontrivial": len(PROGRAMS), "rule": "each stateful program x every assignment of outcome scripts (<=3 draws) to %d consecutive shots, plus analyse-twice and re-analyse-between variants; and every accepted program of the C08/C10/C11/C12/C17 generators run %d times on one AST vs fresh (default draws); distinct = stateful programs" % (_N, _N),
+               "programs": len(PROGRAMS), "corpus_programs": ncorpus, "frontier_programs_accepted": frontier_in, "frontier_programs_rejected_by_analyser": frontier_out, "shots_per_run": _N})
